@@ -325,7 +325,11 @@ class _RawConfigParser(configparser.RawConfigParser):
     self._sections = collections.OrderedDict()
 
   def optionxform(self, option):
-    option = option.strip()
+    # Whitespace is not significant in option names ('A - B' is 'A-B', 'f(r, A)' is 'f(r,A)').
+    # Normalise here, and not only in the dictionary that stores the options, so that
+    # has_option()/get()/remove_option() and configparser's own duplicate option check
+    # all see the same key.
+    option = option.strip().replace(' ', '').replace('\t', '')
     return option
 
 class ConfigParser(object):
